@@ -1,6 +1,7 @@
 mod tl;
 mod utl;
 mod th;
+mod rtreal;
 
 use std::collections::{BTreeMap, HashSet};
 use std::sync::Arc;
@@ -275,6 +276,63 @@ fn tl_c10_table(args: &Args, rep: &mut Report) {
     rep.add_findings(fs);
     rep.exhaustive = Some(true);
     let _ = rep.extra.set("exhaustive_scope", "managed: runtime x per-call (wait, create, recycle) in {none, zero, finite}^3 x slot freed {immediately, before, at, after the deadline, never} x {create path, recycle path} x step finishes {immediately, before, at, after its deadline, never}; build() x runtime x {none, zero, finite}^3; unmanaged: runtime x timeout {none, zero, finite} x {timeout_get, configured} x object available {immediately, before, at, after the deadline, never}");
+}
+
+/// Real-clock timeout scenarios for every runtime (rtreal.rs).
+fn rt_real(args: &Args, rep: &mut Report, rounds: u64) {
+    let seed = args.seed;
+    let jobs = args.jobs.max(1).min(rounds.max(1) as usize);
+    let outs = vh_common::parallel(jobs, move |wk| {
+        let mut v = Vec::new();
+        let mut i = wk as u64;
+        while i < rounds {
+            let outcomes = rtreal::round(seed, i);
+            // "never returned" rests on a wall-clock watchdog: believed only if the same scenario hangs again
+            let again: Vec<String> = if outcomes.iter().any(|o| o.hung) { rtreal::round(seed, i).into_iter().filter(|o| o.hung).map(|o| o.sig).collect() } else { Vec::new() };
+            v.push((i, outcomes, again));
+            i += jobs as u64;
+        }
+        v
+    });
+    let mut fs = Vec::new();
+    let mut sampled = false;
+    for (idx, outcomes, again) in outs.into_iter().flatten() {
+        for o in outcomes {
+            let mut o = o;
+            if o.hung {
+                if again.contains(&o.sig) {
+                    o.violation = Some(("call_never_returned", format!("the call did not return within 10 s, twice in a row; log: {}", o.log.join(" | "))));
+                } else {
+                    o.inconclusive = Some("a call did not return within 10 s, but did when the scenario was repeated".into());
+                }
+            }
+            let cov = rep.engine("rt_real");
+            cov.evaluations += 1;
+            cov.events += o.log.len() as u64;
+            let h = vh_common::fnv1a(o.sig.as_bytes());
+            let _ = cov.distinct.insert(h);
+            let _ = cov.nontrivial.insert(h);
+            // scenario name without the duration: which cells were run how often
+            let cell: String = o.sig.split(';').filter(|p| !p.starts_with("d=")).collect::<Vec<_>>().join(";");
+            *cov.counters.entry(cell).or_insert(0) += 1;
+            if !sampled && o.sig.contains("AsyncStd1") && o.sig.ends_with("create_expires") {
+                sampled = true;
+                cov.sample(Json::obj().with("scenario", o.sig.as_str()).with("log", o.log.iter().map(|s| Json::from(s.as_str())).collect::<Vec<_>>()));
+            }
+            if let Some(why) = o.inconclusive {
+                cov.inconclusive.push(format!("rt_real {}: {}", o.sig, why));
+            }
+            if let Some((oracle, msg)) = o.violation {
+                let cellsig: String = o.sig.split(';').filter(|p| !p.starts_with("d=")).collect::<Vec<_>>().join(";");
+                fs.push(Finding {
+                    sig: format!("C10/rt_real/{}/{}", oracle, cellsig),
+                    v: vh_common::Violation { prop: "C10", oracle, msg: format!("{} ({})", msg, o.sig) },
+                    replay: Json::obj().with("engine", "rt_real").with("seed", seed).with("index", idx).with("scenario", o.sig.as_str()).with("log", o.log.iter().map(|s| Json::from(s.as_str())).collect::<Vec<_>>()),
+                });
+            }
+        }
+    }
+    rep.add_findings(fs);
 }
 
 fn utl_random(args: &Args, rep: &mut Report, prop: &'static str, n: u64) {
@@ -740,6 +798,9 @@ fn main() {
             }
             if args.engine_enabled("utl") {
                 utl_random(&args, &mut rep, prop, sc(10_000.0, 300_000.0));
+            }
+            if args.engine_enabled("rt_real") {
+                rt_real(&args, &mut rep, sc(16.0, 400.0).max(1));
             }
         }
         _ => {
